@@ -787,8 +787,8 @@ impl<'ast, 'p> Visit<'ast> for Ctx<'p> {
                 let (rs, re) = br(recv.span());
                 let (bs, be) = br(f.body.span());
                 let (p0s, p0e) = br(tp.elems[0].span());
-                self.counter += 1;
-                let k = format!("vx_k{}", self.counter);
+                let ord = self.fn_stack.last().map(|f| f.loop_ord).unwrap_or(0);
+                let k = format!("vx_k{}", ord);
                 let second = match &tp.elems[1] {
                     syn::Pat::Reference(r) => {
                         let (is, ie) = br(r.pat.span());
@@ -823,8 +823,8 @@ impl<'ast, 'p> Visit<'ast> for Ctx<'p> {
             let (ps, pe) = br(f.pat.span());
             let (es, ee) = br(f.expr.span());
             let (bs, be) = br(f.body.span());
-            self.counter += 1;
-            let it = format!("vx_it{}", self.counter);
+            let ord = self.fn_stack.last().map(|f| f.loop_ord).unwrap_or(0);
+            let it = format!("vx_it{}", ord);
             self.replace(
                 s,
                 e,
@@ -1011,6 +1011,17 @@ impl<'ast, 'p> Visit<'ast> for Ctx<'p> {
         let is_bytes = |e: &syn::Expr| {
             matches!(e, syn::Expr::Lit(syn::ExprLit { lit: syn::Lit::ByteStr(_), .. }))
         };
+        if matches!(b.op, syn::BinOp::Lt(_)) && (is_bytes(&b.right) || is_bytes(&b.left)) && self.in_verified_fn() {
+            let (s, e) = br(b.span());
+            let (ls, le) = br(b.left.span());
+            let (rs, re) = br(b.right.span());
+            self.replace(
+                s,
+                e,
+                vec![Part::Lit("vx_lt_bytes(".into()), Part::Src(ls, le), Part::Lit(", ".into()), Part::Src(rs, re), Part::Lit(")".into())],
+            );
+            self.log(s, "R4c", "slice < byte-string literal -> vx_lt_bytes (lexicographic order)");
+        }
         let eq = matches!(b.op, syn::BinOp::Eq(_));
         let ne = matches!(b.op, syn::BinOp::Ne(_));
         if (eq || ne) && (is_bytes(&b.right) || is_bytes(&b.left)) && self.in_verified_fn() {
@@ -1371,6 +1382,20 @@ impl<'p> Ctx<'p> {
                 if let Some(i) = top_level_comma(&toks) {
                     let (a, b) = toks.split_at(i);
                     let b = &b[1..];
+                    // all alternatives are string literals: comparison chain (str literal arms cannot be entered by Verus)
+                    let alts: Vec<&str> = b.split('|').map(|x| x.trim()).collect();
+                    if !alts.is_empty() && alts.iter().all(|x| x.starts_with('"') && x.ends_with('"') && x.len() >= 2) {
+                        self.counter += 1;
+                        let v = format!("vx_t{}", self.counter);
+                        let chain: Vec<String> = alts.iter().map(|x| format!("{v} == {x}")).collect();
+                        self.replace(
+                            s,
+                            e,
+                            vec![Part::Lit(format!("{{ let {v} = {}; {} }}{}", a.trim(), chain.join(" || "), if stmt { ";" } else { "" }))],
+                        );
+                        self.log(s, "R14", "matches!(e, \"a\" | \"b\") -> e == \"a\" || e == \"b\"");
+                        return;
+                    }
                     self.replace(
                         s,
                         e,
